@@ -267,6 +267,9 @@ func (e ProtoEngine) Gen(prop, tier string, seed uint64, yield func(c any) bool)
 		}
 	case "bac":
 		n := 6000
+		if prop != "C05" {
+			n = 600
+		}
 		if thorough {
 			n = 1200000
 		}
@@ -298,6 +301,9 @@ func (e ProtoEngine) Gen(prop, tier string, seed uint64, yield func(c any) bool)
 			}
 		}
 		m := 3000
+		if prop != "C05" {
+			m = 400
+		}
 		if thorough {
 			m = 600000
 		}
